@@ -500,12 +500,17 @@ func (cs *centralSystem) SetNewChargePointHandler(handler ChargePointConnectionH
 
 func (cs *centralSystem) SetChargePointDisconnectedHandler(handler ChargePointConnectionHandler) {
 	cs.server.SetDisconnectedClientHandler(func(chargePoint ws.Channel) {
-		for cb, ok := cs.callbackQueue.Dequeue(chargePoint.ID()); ok; cb, ok = cs.callbackQueue.Dequeue(chargePoint.ID()) {
-			err := ocpp.NewError(ocppj.GenericError, "client disconnected, no response received from client", "")
-			cb(nil, err)
-		}
+		cs.cancelPendingCallbacks(chargePoint.ID())
 		handler(chargePoint)
 	})
+}
+
+// cancelPendingCallbacks invokes, with an error, the callbacks of all requests still pending for a disconnected client.
+func (cs *centralSystem) cancelPendingCallbacks(chargePointID string) {
+	for cb, ok := cs.callbackQueue.Dequeue(chargePointID); ok; cb, ok = cs.callbackQueue.Dequeue(chargePointID) {
+		err := ocpp.NewError(ocppj.GenericError, "client disconnected, no response received from client", "")
+		cb(nil, err)
+	}
 }
 
 func (cs *centralSystem) SendRequestAsync(clientId string, request ocpp.Request, callback func(confirmation ocpp.Response, err error)) error {
